@@ -565,7 +565,7 @@ static void c6_init_queries(void)
 	/* covered by the other source's record 172.16/12 as500: same answer whatever this socket holds */
 	C6_Q[C6_NQ++] = (struct c6_query){0, 4, {0xac100000}, 12, 500, 0, "validate(as500,172.16.0.0/12) [other source]"};
 	C6_Q[C6_NQ++] = (struct c6_query){0, 4, {0x0a010000}, 16, 200, 0, "validate(as200,10.1.0.0/16) [universe rec 1]"};
-	C6_Q[C6_NQ++] = (struct c6_query){0, 4, {0xc0a80000}, 16, 300, 0, "validate(as300,192.168.0.0/16) [universe rec 2]"};
+	C6_Q[C6_NQ++] = (struct c6_query){0, 4, {0x0a000000}, 8, 300, 0, "validate(as300,10.0.0.0/8) [universe rec 2]"};
 	C6_Q[C6_NQ++] = (struct c6_query){0, 6, {0x20010db8, 0, 0, 0}, 32, 100, 0, "validate(as100,2001:db8::/32) [universe rec 3]"};
 	C6_Q[C6_NQ++] = (struct c6_query){1, 0, {0}, 0, 0, 0, "get_all(key0)"};
 	C6_Q[C6_NQ++] = (struct c6_query){1, 0, {0}, 0, 0, 1, "get_all(key1)"};
